@@ -708,14 +708,16 @@ smtp_bdat(void)
 			}
 
 			/* handle everything after the last CRLF (if any) */
-			if ((*more != '\0') && lastcr && (chunksize == 0)) {
-				/* If this is the final chunk and it ended in CR than add it back here.
-				 * The last byte in the buffer was never used before so this can't cause
-				 * an overflow. */
-				pos[rlen++] = '\r';
-			}
 			WRITE(pos, rlen);
 		}
+	}
+
+	/* The data ended in CR, which was held back to see if a LF follows. This is the
+	 * end of the message, so add it back here. It must also be done if the final
+	 * chunk is empty. */
+	if ((*more != '\0') && lastcr && !bdaterr) {
+		WRITEL("\r");
+		lastcr = 0;
 	}
 
 	if ((msgsize > maxbytes) && !bdaterr) {
